@@ -101,13 +101,13 @@ func FloatFromString(str string) (Object, error) {
 	return Float(f), nil
 }
 
-var expectingFloat = ExceptionNewf(TypeError, "a float is required")
+func expectingFloat() *Exception { return ExceptionNewf(TypeError, "a float is required") }
 
 // Returns the float value of obj if it is exactly a float
 func FloatCheckExact(obj Object) (Float, error) {
 	f, ok := obj.(Float)
 	if !ok {
-		return 0, expectingFloat
+		return 0, expectingFloat()
 	}
 	return f, nil
 }
@@ -138,7 +138,9 @@ func FloatAsFloat64(obj Object) (float64, error) {
 // Arithmetic
 
 // Errors
-var floatDivisionByZero = ExceptionNewf(ZeroDivisionError, "float division by zero")
+func floatDivisionByZero() *Exception {
+	return ExceptionNewf(ZeroDivisionError, "float division by zero")
+}
 
 // Convert an Object to an Float
 //
@@ -225,7 +227,7 @@ func (a Float) M__imul__(other Object) (Object, error) {
 func (a Float) M__truediv__(other Object) (Object, error) {
 	if b, ok := convertToFloat(other); ok {
 		if b == 0 {
-			return nil, floatDivisionByZero
+			return nil, floatDivisionByZero()
 		}
 		return Float(a / b), nil
 	}
@@ -235,7 +237,7 @@ func (a Float) M__truediv__(other Object) (Object, error) {
 func (a Float) M__rtruediv__(other Object) (Object, error) {
 	if b, ok := convertToFloat(other); ok {
 		if a == 0 {
-			return nil, floatDivisionByZero
+			return nil, floatDivisionByZero()
 		}
 		return Float(b / a), nil
 	}
@@ -275,7 +277,7 @@ func (a Float) M__ifloordiv__(other Object) (Object, error) {
 // Does DivMod of two floating point numbers
 func floatDivMod(a, b Float) (Float, Float, error) {
 	if b == 0 {
-		return 0, 0, floatDivisionByZero
+		return 0, 0, floatDivisionByZero()
 	}
 	// As float_divmod in CPython's floatobject.c
 	vx, wx := float64(a), float64(b)
